@@ -312,8 +312,9 @@ DISTURB_TEXTS = ['def f(a):\n    if a:\n        b = = 1\n', 'x\n    y )\n  z\n',
                  "s = f'{f\"{a b}\"}'\n", '1 +', 'x = (1, 2', 'f(a b)', 'lambda: 1 1']
 
 
-def aborted(fn, n):
-    """Runs fn(); the n-th line event inside the library raises Abort there.  Returns True when the call was aborted."""
+def aborted(fn, n, files=None):
+    """Runs fn(); the n-th line event inside the library (``files``: only in modules with these base names) raises Abort there.
+    Returns True when the call was aborted."""
     import sys as _sys
     count = [0]
 
@@ -325,7 +326,8 @@ def aborted(fn, n):
         return local
 
     def tracer(frame, event, arg):
-        if frame.f_code.co_filename.startswith(_PARSO_ROOT):
+        fn_ = frame.f_code.co_filename
+        if fn_.startswith(_PARSO_ROOT) and (files is None or os.path.basename(fn_) in files):
             return local
         return None
     old = _sys.gettrace()
